@@ -345,6 +345,18 @@ var hourRule = ev.Register(&ev.P[hourCase]{
 		if o := l.GetTime().GetNineStar().GetIndex(); o != got {
 			return fmt.Errorf("%v: Lunar.GetTimeNineStar index %d but the hour object gives %d", t, got, o)
 		}
+		// the stars are no function of the eight-character chart's day-boundary switch (every 23:xx case, a share of
+		// the others)
+		if t.H != 23 && (t.D+t.H+t.Mi)%8 != 0 {
+			return nil
+		}
+		y0, m0, d0 := l.GetYearNineStar().GetIndex(), l.GetMonthNineStar().GetIndex(), l.GetDayNineStar().GetIndex()
+		l.GetEightChar().SetSect(1)
+		y1, m1, d1, h1, o1 := l.GetYearNineStar().GetIndex(), l.GetMonthNineStar().GetIndex(), l.GetDayNineStar().GetIndex(), l.GetTimeNineStar().GetIndex(), l.GetTime().GetNineStar().GetIndex()
+		l.GetEightChar().SetSect(2)
+		if y1 != y0 || m1 != m0 || d1 != d0 || h1 != got || o1 != got {
+			return fmt.Errorf("%v: year/month/day/hour stars %d/%d/%d/%d become %d/%d/%d/%d (hour object %d) after the chart's SetSect(1)", t, y0, m0, d0, got, y1, m1, d1, h1, o1)
+		}
 		return nil
 	},
 	Class: func(c hourCase) ([]string, bool) {
